@@ -26,7 +26,7 @@ BOUND = {
     "thorough": "same with L(5,3) and grid subsets <=3 (core)",
 }
 # as-built additions to the bound (kept next to BOUND so that the evidence reports them)
-BOUND = {k: v + "; plus: " + 'group/repeat/loop nesting chains (depth <=2, thorough <=3) x 6 leaf kinds whose output depends on the ancestors; legacy question types with overridden defaults, OSM with choice lists, 25 field-like extra choice column names (alone, filtered, pairs), add_none_option (open finding)' for k, v in BOUND.items()}
+BOUND = {k: v + "; plus: " + 'dump-to-path / load-from-path sequences re-using one path for two surveys; group/repeat/loop nesting chains (depth <=2, thorough <=3) x 6 leaf kinds whose output depends on the ancestors; legacy question types with overridden defaults, OSM with choice lists, 25 field-like extra choice column names (alone, filtered, pairs), add_none_option (open finding)' for k, v in BOUND.items()}
 
 EXTRA = [
     {"survey": [{"type": "begin group", "name": "g", "label": "G", "relevant": "${q} = 1", "read_only": "yes", "appearance": "field-list"},
@@ -113,6 +113,53 @@ def gen_nest(tier):
                 yield {"g": "form", "name": f"nest:{'>'.join(chain)}:{leaf}", "wb": {"survey": [{"type": "text", "name": "t0", "label": "T0"}, *rows], "choices": CH2}}
 
 
+def _pathforms():
+    return [*EXTRA, *C13.RICH[:4], *LEGACY.values()]
+
+
+def gen_pathseq(tier):
+    """dump to a file, load from it, dump another survey to the *same* path, load again: each load gives the survey just dumped"""
+    n = len(_pathforms())
+    for i in range(n):
+        for j in range(n):
+            for via in ("json_dump", "to_json"):
+                yield {"g": "pathseq", "a": i, "b": j, "via": via}
+                if i != j:
+                    yield {"g": "pathseq", "a": i, "b": j, "via": via, "third": True}
+
+
+def check_pathseq(case):
+    import os
+    import shutil
+    import tempfile
+
+    from pyxform.builder import create_survey_element_from_json
+
+    d = tempfile.mkdtemp(prefix="c16.", dir=os.environ.get("VERIF_WORK", "/var/tmp"))
+    viol = []
+    try:
+        path = os.path.join(d, "form.json")
+        seq = [case["a"], case["b"]] + ([case["a"]] if case.get("third") else [])
+        for step, k in enumerate(seq):
+            out = run_convert(_pathforms()[k])
+            if out.kind != "ok":
+                return {"outcome": out.kind, "nt": False, "viol": [], "tr": 1}
+            sv = out.result._survey
+            if case["via"] == "json_dump":
+                sv.json_dump(path)
+            else:
+                with open(path, "w", encoding="utf-8") as f:
+                    f.write(sv.to_json())
+            back = create_survey_element_from_json(path)
+            x = back.to_xml(validate=False, pretty_print=False)
+            if x != out.xform:
+                viol.append((f"path-reload-gives-another-survey:step{step + 1}", first_diff(out.xform, x)))
+                break
+    finally:
+        shutil.rmtree(d, ignore_errors=True)
+    return {"outcome": "ok", "nt": not viol and len(set(seq)) > 1, "viol": viol, "tr": len(seq) * 3}
+
+
 def gen_forms(tier):
     for name, wb in [(f"extra:{i}", w) for i, w in enumerate(EXTRA)] + [(f"rich:{i}", w) for i, w in enumerate(C13.RICH)] + C12.base_forms(tier):
         yield {"g": "form", "name": name, "wb": wb}
@@ -127,7 +174,7 @@ def gen_grid(tier):
             yield {"g": "grid", "cells": [list(c) for c in combo], "dl": dl}
 
 
-SPACE = GenSpace({"nest": gen_nest, "legacy": gen_legacy, "forms": gen_forms, "grid": gen_grid}, chunk=200)
+SPACE = GenSpace({"pathseq": gen_pathseq, "nest": gen_nest, "legacy": gen_legacy, "forms": gen_forms, "grid": gen_grid}, chunk=200)
 blocks = SPACE.blocks
 expand = SPACE.expand
 
@@ -157,6 +204,8 @@ def lost_kind(a, b):
 def check_one(case):
     from pyxform.builder import create_survey_element_from_dict
 
+    if case["g"] == "pathseq":
+        return check_pathseq(case)
     if case["g"] == "grid":
         wb, kw = grid.build([tuple(c) for c in case["cells"]], case["dl"])
     else:
